@@ -664,6 +664,9 @@ def run(res, tier):
                     res.bad("RND-5", f.pretty, "unordered-iteration:%s" % d.get("n"),
                             "%s iterates a HashMap/HashSet (%s) without sorting or an order-insensitive consumer: the order depends on RandomState" % (f.pretty, d.get("n")), site=f.where(t["l"]))
         res.floor("RND-5", "HashMap iteration sites", n5, 7)
+    if tier == "thorough":
+        from . import witness
+        witness.check(res, ["W3SourceNotClone"])
 
 
 def uses_param(f, l):
